@@ -238,12 +238,35 @@ void World::exec(const Op& op, int idx) {
         env.log_simple(K_ESC, on, -1, idx, 0);      // C12: an exception escaped the API
     }
     for (size_t r = 0; r < reps.size(); ++r) observe_quiescent((int)r);
+    log_live();
     if (observe_each) for (size_t r = 0; r < reps.size(); ++r) if (started[r]) observe_full((int)r);
     ++ops_done;
 }
 
+void World::log_live() {
+    if (!d->tracked) return;
+    if (is_model) {
+        long n = 0;
+        for (auto& r : reps) if (r) n += r->live_tracked();
+        env.log_simple(K_LIVE, -1, -1, 0, (int)n);
+        env.log_simple(K_LIVE, -1, -1, 1, 0);
+    } else {
+        env.log_simple(K_LIVE, -1, -1, 0, (int)registry().live.size());
+        env.log_simple(K_LIVE, -1, -1, 1, (int)registry().errors);
+    }
+}
 void World::run(const Plan& p) {
+    if (!is_model) registry().reset();
     for (size_t i = 0; i < p.ops.size(); ++i) exec(p.ops[i], (int)i);
+    if (d->tracked && !aborted) {
+        // C20: when every machine of the run is gone, every stored copy must be gone too
+        set_env(&env);
+        env.enabled = false;
+        for (auto& r : reps) r.reset();
+        env.enabled = true;
+        refresh_extents();
+        log_live();
+    }
     set_env(nullptr);
 }
 
